@@ -143,7 +143,7 @@ def search_spec(draw, max_geos=6, min_geos=1, constraint_p=0.5, allow_budget=Tru
   elig = draw(eligibility_spec(panel['ids'], elig_style))
   params = draw(params_spec(panel['n_test'], panel['n_dates'], len(panel['ids']), constraint_p, allow_budget, allow_share, degenerate,
                             tight_sizes))
-  history = draw(st.sampled_from([None, None, None, None, 'shared-data', 'reused-data', 'other-search-first', 'params-mutated', 'shared-eligibility']))
+  history = draw(st.sampled_from([None, None, 'shared-data', 'reused-data', 'other-search-first', 'params-mutated', 'shared-eligibility']))
   if history == 'shared-data' and params['n_geos_max'] is None and len(panel['ids']) >= 3 and draw(st.booleans()):
     # the measured searcher is capped, the other one on the same data object is not (its geo list is a superset)
     params['n_geos_max'] = len(panel['ids']) - 1
